@@ -500,8 +500,13 @@ def _check_idle_crowd(case, ctx):
     fails = []
     try:
         srv = live.Server(live.write_conf(os.path.join(base, "s.conf"), root, "full", case["servertype"], timeout=60))
-        for _ in range(case["idle"]):
-            socks.append(live.connect(srv.port, 10))
+        for i in range(case["idle"]):
+            try:
+                socks.append(live.connect(srv.port, 10))
+            except OSError as e:
+                # the listen queue is full: the server stopped accepting while earlier clients sit silent
+                return [Fail("idle-crowd:%s" % case["servertype"],
+                             "%d clients are connected and silent; the next connection is not accepted within 10 s: %r" % (i, e))]
         time.sleep(0.3)
         ctx.nontriv((case["servertype"], case["idle"]))
         ctx.label("idle-crowd:%s:%d" % (case["servertype"], case["idle"]))
